@@ -429,7 +429,7 @@ def run(ctx):
     mine = [c for i, c in enumerate(cases) if i % nw == me]
     ctx.rng.shuffle(mine)
     n_random = ctx.scale(1500, 40000)
-    budget = 42 if ctx.quick else 400
+    budget = 38 if ctx.quick else 300
     base = ctx.seed * 1000003 + me * 100003
     done_sys = 0
     i = 0
@@ -509,7 +509,7 @@ def run(ctx):
                         "probes": R.get('probes')})
     if not mine:
         ctx.count("systematic_cases_completed_by_worker", 1)
-    ctx.floor_distinct = 150 if ctx.quick else 3000
-    ctx.floor_counters = {"histories": 150, "pool_callbacks_observed": 150, "successful_switches": 30, "switches_reporting_error": 30,
-                          "connections_checked_after_success": 50, "probe_requests_located_on_the_wire": 50,
-                          "pools_in_state_noconn": 20, "pools_in_state_shutdown": 20, "pools_in_state_error": 20, "pools_in_state_lost": 20}
+    ctx.floor_distinct = 60 if ctx.quick else 1500
+    ctx.floor_counters = {"histories": 60, "pool_callbacks_observed": 60, "successful_switches": 15, "switches_reporting_error": 15,
+                          "connections_checked_after_success": 25, "probe_requests_located_on_the_wire": 25,
+                          "pools_in_state_noconn": 10, "pools_in_state_shutdown": 10, "pools_in_state_error": 10, "pools_in_state_lost": 10}
